@@ -1,7 +1,11 @@
 // Package lib is the shared machinery of the runtime monitors in /verif.
 package lib
 
-import "encoding/binary"
+import (
+	"bytes"
+	"encoding/binary"
+	"sync"
+)
 
 // RNG is a splitmix64 generator. Case i of a run uses Sub(i), so a single case can be
 // replayed alone from (seed, tier, index).
@@ -92,4 +96,55 @@ func (r *RNG) Split(b []byte) [][]byte {
 		}
 	}
 	return out
+}
+
+// FillStream writes the self-describing offset stream used by tunnel/transfer monitors:
+// byte i of a direction is byte (i%8) of BigEndian64((i/8) XOR key).
+//
+//go:norace
+func FillStream(buf []byte, off int, key uint64) {
+	var blk [8]byte
+	i := 0
+	// unaligned head
+	for ; i < len(buf) && (off+i)%8 != 0; i++ {
+		binary.BigEndian.PutUint64(blk[:], uint64((off+i)/8)^key)
+		buf[i] = blk[(off+i)%8]
+	}
+	// whole blocks
+	for ; i+8 <= len(buf); i += 8 {
+		binary.BigEndian.PutUint64(buf[i:i+8], uint64((off+i)/8)^key)
+	}
+	// tail
+	if i < len(buf) {
+		binary.BigEndian.PutUint64(blk[:], uint64((off+i)/8)^key)
+		copy(buf[i:], blk[:])
+	}
+}
+
+var streamScratch = sync.Pool{New: func() any { b := make([]byte, 64<<10); return &b }}
+
+// CheckStream compares buf with the expected stream at offset off; returns the index of the
+// first mismatch or -1.
+//
+//go:norace
+func CheckStream(buf []byte, off int, key uint64) int {
+	sp := streamScratch.Get().(*[]byte)
+	defer streamScratch.Put(sp)
+	exp := *sp
+	for done := 0; done < len(buf); {
+		n := len(buf) - done
+		if n > len(exp) {
+			n = len(exp)
+		}
+		FillStream(exp[:n], off+done, key)
+		if !bytes.Equal(exp[:n], buf[done:done+n]) {
+			for i := 0; i < n; i++ {
+				if exp[i] != buf[done+i] {
+					return done + i
+				}
+			}
+		}
+		done += n
+	}
+	return -1
 }
